@@ -71,6 +71,7 @@ type Hist struct {
 	erc20Own  map[common.Address]int
 	emitters  map[common.Address]bool // user-deployed batch tokens (emitterInit): one call, several Transfer events
 	emitN     uint64
+	hookConv  map[common.Address]bool // contracts whose tokens were converted through the EVM hook at least once
 	burst     int // > 0: fill the CSR registry up to this many NFTs in bursts (more than one default page of the query servers)
 	regERC20  map[common.Address]bool
 	pending   []pendingTx
@@ -82,7 +83,7 @@ type Hist struct {
 
 func NewHist(cfg *ChainCfg, r *Rng, ref *Node) *Hist {
 	return &Hist{cfg: cfg, r: r, ref: ref, height: 0, now: cfg.GenTime, stat: map[string]int{}, nextProp: 1,
-		erc20Own: map[common.Address]int{}, emitters: map[common.Address]bool{}, regERC20: map[common.Address]bool{}, txPerBlk: 6,
+		erc20Own: map[common.Address]int{}, emitters: map[common.Address]bool{}, hookConv: map[common.Address]bool{}, regERC20: map[common.Address]bool{}, txPerBlk: 6,
 		govAddr: authtypes.NewModuleAddress(govtypes.ModuleName).String()}
 }
 
@@ -205,6 +206,15 @@ func (h *Hist) genProposal(ctx sdk.Context) {
 			return
 		}
 		p := pairs[h.r.Intn(len(pairs))]
+		if h.r.Chance(1, 2) {
+			// a pair that has been converted through the hook: switched off (and on again) while in use
+			for _, q := range pairs {
+				if h.hookConv[q.GetERC20Contract()] && h.r.Chance(1, 2) {
+					p = q
+					break
+				}
+			}
+		}
 		tok := p.Denom
 		if h.r.Chance(1, 2) {
 			tok = p.Erc20Address
@@ -307,6 +317,9 @@ func (h *Hist) genUserTx(ctx sdk.Context) {
 		deadline = h.now.Unix() - 1
 	}
 	pools := a.CoinswapKeeper.GetAllPools(ctx)
+	if r.Chance(1, 10) && h.hotTransfer(ctx) {
+		return
+	}
 	switch k := r.Intn(100); {
 	case k < 10: // bank send, sometimes a donation to a pool escrow, sometimes to a blocked module account
 		i := h.user()
@@ -524,11 +537,21 @@ func (h *Hist) genUserTx(ctx sdk.Context) {
 			h.ethTx(ctx, "eth-erc20-mint", h.erc20Own[c], &c, nil, 300_000, data, nil)
 		} else if len(pairs) > 0 {
 			p := pairs[r.Intn(len(pairs))]
-			c := p.GetERC20Contract()
 			to := h.ethAddr(h.user())
 			if r.Chance(1, 2) {
 				to = erc20types.ModuleAddress
 			}
+			if r.Chance(1, 2) {
+				// a pair that was converted through the hook before and has been toggled off since: holders keep sending
+				for _, q := range pairs {
+					if h.hookConv[q.GetERC20Contract()] && !q.Enabled {
+						p, to = q, erc20types.ModuleAddress
+						h.stat["gen:transfer-to-module-of-switched-off-pair"]++
+						break
+					}
+				}
+			}
+			c := p.GetERC20Contract()
 			data, _ := contracts.ERC20MinterBurnerDecimalsContract.ABI.Pack("transfer", to, big.NewInt(int64(1+r.Intn(500))))
 			// mostly a holder of the token (the balance is read through the keeper's own read-only EVM call)
 			i := h.user()
@@ -538,7 +561,11 @@ func (h *Hist) genUserTx(ctx sdk.Context) {
 				}
 				i = (i + 1) % len(h.cfg.Addrs)
 			}
-			h.ethTx(ctx, "eth-erc20-transfer", i, &c, nil, 500_000, data, nil)
+			var onOK func()
+			if to == erc20types.ModuleAddress && p.Enabled {
+				onOK = func() { h.hookConv[c] = true }
+			}
+			h.ethTx(ctx, "eth-erc20-transfer", i, &c, nil, 500_000, data, onOK)
 		}
 	}
 }
@@ -619,6 +646,41 @@ func (h *Hist) NextBlock() (int64, time.Time, []TxSpec) {
 		out = append(out, p.spec)
 	}
 	return h.height, h.now, out
+}
+
+// hotTransfer: a holder sends tokens of a pair to the erc20 module address — a pair that was converted through the hook
+// before: mostly one that has been toggled off since (holders keep sending), else any such pair.
+func (h *Hist) hotTransfer(ctx sdk.Context) bool {
+	a := h.ref.App
+	var hot, hotOff []erc20types.TokenPair
+	for _, q := range a.Erc20Keeper.GetTokenPairs(ctx) {
+		if h.hookConv[q.GetERC20Contract()] {
+			hot = append(hot, q)
+			if !q.Enabled {
+				hotOff = append(hotOff, q)
+			}
+		}
+	}
+	if len(hotOff) > 0 && h.r.Chance(3, 4) {
+		hot = hotOff
+		h.stat["gen:transfer-to-module-of-switched-off-pair"]++
+	}
+	if len(hot) == 0 {
+		return false
+	}
+	p := hot[h.r.Intn(len(hot))]
+	c := p.GetERC20Contract()
+	abi := contracts.ERC20MinterBurnerDecimalsContract.ABI
+	i := h.user()
+	for x := 0; x < len(h.cfg.Addrs); x++ {
+		if b := a.Erc20Keeper.BalanceOf(ctx, abi, c, h.ethAddr(i)); b != nil && b.Cmp(big.NewInt(500)) > 0 {
+			break
+		}
+		i = (i + 1) % len(h.cfg.Addrs)
+	}
+	data, _ := abi.Pack("transfer", erc20types.ModuleAddress, big.NewInt(int64(1+h.r.Intn(500))))
+	h.ethTx(ctx, "eth-erc20-transfer", i, &c, nil, 500_000, data, nil)
+	return true
 }
 
 // genBurst: a block full of CSR contract deployments, or of registrations of the contracts deployed so far (each creates an
